@@ -275,6 +275,9 @@ Result execute(const Plan &p) {
     res.nontrivial = degenerate || levels >= 2;
     res.key = sim::hash_combine(gen::digest(A), (uint64_t)(p.get("kind") * 100000 + p.get("coarsening") * 10000 + p.get("relax") * 1000 + p.get("solver") * 100 + p.get("coarse_enough")));
     res.key = sim::hash_combine(res.key, (uint64_t)(p.get("max_levels") * 64 + p.get("npre") * 16 + p.get("npost") * 4 + p.get("ncycle")));
+    // a violation of this property means that outputs depend on what the process did before: their digest is then no usable identity
+    // of the run (the in-process gate and the fresh-process replay would call the world irreproducible instead of reporting it)
+    if (!res.v.empty()) res.hash = res.key;
     if (degenerate) res.counts["degenerate_inputs"]++;
     if (levels >= 2) res.counts["multilevel_hierarchies"]++;
     if (!outs[0].exc.empty()) res.counts["exception_outcomes"]++;
